@@ -24,7 +24,7 @@ RULE = (
     "pair; distinct = (operation, parameters, input hash, seed); non-trivial = the operation returned in both runs"
 )
 ASSUMPTIONS = ["thorough tier repeats the CLI steps as real subprocesses under two PYTHONHASHSEED values", "line-granular injection uses sys.monitoring LINE events on code objects whose file lies under the tree under test"]
-REQUIRED = {"pairs_compared": {"quick": 400, "thorough": 8000}, "global_state_checks": {"quick": 400, "thorough": 8000}, "injected_global_draws": {"quick": 2000, "thorough": 50000}, "training_pairs": {"quick": 16, "thorough": 300}, "training_pairs_same_model": {"quick": 16, "thorough": 300}, "vi_training_pairs": {"quick": 40, "thorough": 600}, "grid_model_training_pairs": {"quick": 2, "thorough": 16}, "cli_pairs": {"quick": 24, "thorough": 400}, "cli_subprocess_pairs": {"quick": 2, "thorough": 16}}
+REQUIRED = {"pairs_compared": {"quick": 400, "thorough": 8000}, "global_state_checks": {"quick": 400, "thorough": 8000}, "injected_global_draws": {"quick": 2000, "thorough": 50000}, "training_pairs": {"quick": 16, "thorough": 300}, "training_pairs_same_model": {"quick": 16, "thorough": 300}, "training_with_non_default_switches": {"quick": 6, "thorough": 100}, "vi_training_pairs": {"quick": 40, "thorough": 600}, "grid_model_training_pairs": {"quick": 2, "thorough": 16}, "cli_pairs": {"quick": 24, "thorough": 400}, "cli_subprocess_pairs": {"quick": 2, "thorough": 16}}
 N_OPS = {"quick": 640, "thorough": 12800}
 TOOL = 4
 
@@ -232,18 +232,24 @@ def run_shard(rec, tier, seed, shard, nshards):
             sd, nch = int(rng.integers(0, 1000)), int(rng.integers(1, 4))
             ch = int(rng.integers(nch))
             D_ = int(rng.integers(1, 4))
+            # the constructor's switches: defaults in half of the cases, any combination otherwise
+            mkw = {}
+            if rng.random() < 0.5:
+                names = ["mult_gamma_proc", "local_shrinkage"] + (["fake_intercept", "individual_eff"] if mname == "SparseDrugCombo" else [])
+                mkw = {k_: bool(rng.random() < 0.5) for k_ in names}
+                rec.count("training_with_non_default_switches")
 
-            def train(cls=cls, screen=screen, sd=sd, nch=nch, ch=ch, D_=D_):
-                m = cls(experiment_space=ExperimentSpace.from_screen(screen), n_embedding_dimensions=D_)
+            def train(cls=cls, screen=screen, sd=sd, nch=nch, ch=ch, D_=D_, mkw=mkw):
+                m = cls(experiment_space=ExperimentSpace.from_screen(screen), n_embedding_dimensions=D_, **mkw)
                 m.add_observations(screen.subset_observed())
                 return sampling.sample(m, ThetaHolder(n_thetas=3), seed=sd, n_chains=nch, chain_index=ch, n_burnin=2, thin=2)
 
-            w = {"model": mname, "seed": sd, "n_chains": nch, "chain_index": ch, "rows": int(screen.size)}
+            w = {"model": mname, "seed": sd, "n_chains": nch, "chain_index": ch, "rows": int(screen.size), "switches": mkw}
             pair(rec, "train/" + mname, "seed=%d" % sd, train, theta_fp, w, inj_every=97, case_key=("train", mname, sd, nch, ch, kit.array_hash(screen.observations)), count_as="training_pairs")
 
             # the same call repeated on the SAME model object: sampling.sample resets the model first, so what the
             # first call left behind is not an input of the second
-            shared = cls(experiment_space=ExperimentSpace.from_screen(screen), n_embedding_dimensions=D_)
+            shared = cls(experiment_space=ExperimentSpace.from_screen(screen), n_embedding_dimensions=D_, **mkw)
             shared.add_observations(screen.subset_observed())
             nb = int(rng.integers(0, 3))
 
